@@ -40,4 +40,20 @@ theorem mesh_deviation_point_far (c n q : V3 ℝ) (hfar : devTolMesh ≤ V3.norm
 theorem devset_new_invariant (vs : List ℝ) :
     C16.DevSetInv (⟨vs, (GenRs.devset_new vs).1, (GenRs.devset_new vs).2⟩ : DevSet ℝ) :=
   C16.devset_new_inv vs
+/-! ### `PointCloud::try_new`: when a channel is refused (regenerated guards) -/
+
+/-- a normals (colours) channel that is present is accepted exactly when it has one entry per point: an EMPTY channel
+    beside a non-empty point list is refused like any other mismatch, so an accepted cloud has channels of the
+    length of its points -/
+theorem cloud_channel_accepted_iff_same_length (channel_len points_len : Nat) :
+    (GenRs.cloud_normals_refused channel_len points_len = false ↔ channel_len = points_len) ∧
+    (GenRs.cloud_colors_refused channel_len points_len = false ↔ channel_len = points_len) := by
+  unfold GenRs.cloud_normals_refused GenRs.cloud_colors_refused
+  simp
+
+theorem cloud_empty_channel_refused (points_len : Nat) (h : 0 < points_len) :
+    GenRs.cloud_normals_refused 0 points_len = true ∧ GenRs.cloud_colors_refused 0 points_len = true := by
+  unfold GenRs.cloud_normals_refused GenRs.cloud_colors_refused
+  simp; omega
+
 end C16U
